@@ -37,7 +37,31 @@ def start_rtc(jobs, tier, seed, out_path, budget=None):
     if any(j.startswith('armed') for j in jobs):
         unitmod.export_all(cj)
     env['VF_CONTRACTS_JSON'] = cj
-    return subprocess.Popen(cmd, cwd=HERE, env=env, stdout=subprocess.PIPE, stderr=subprocess.PIPE, text=True)
+    for v in ('OMP_NUM_THREADS', 'OPENBLAS_NUM_THREADS', 'MKL_NUM_THREADS', 'NUMEXPR_NUM_THREADS'):
+        env[v] = '1'                  # thread pools of the numerical libraries do not survive the forks of the group functions
+    return subprocess.Popen(cmd, cwd=HERE, env=env, stdout=subprocess.PIPE, stderr=subprocess.PIPE, text=True,
+                            start_new_session=True)
+
+
+def finish_rtc(p, limit_s):
+    """wait for the run-time side; whatever happens, none of its (grand)children is left behind"""
+    import signal
+    try:
+        out, err = p.communicate(timeout=limit_s)
+        timed_out = False
+    except subprocess.TimeoutExpired:
+        timed_out = True
+        out, err = '', 'run-time side exceeded %d s and was stopped' % limit_s
+    try:
+        os.killpg(p.pid, signal.SIGKILL)          # stragglers of nested pools
+    except (ProcessLookupError, PermissionError, OSError):
+        pass
+    if timed_out:
+        try:
+            p.communicate(timeout=10)
+        except Exception:
+            pass
+    return out, err
 
 
 def load_known():
@@ -196,7 +220,7 @@ def main():
     rtc_results = []
     rtc_err = ''
     if rtc is not None:
-        out, err = rtc.communicate()
+        out, err = finish_rtc(rtc, 2400 if tier == 'quick' else 7200)
         try:
             with open(tmp_out) as f:
                 rtc_results = json.load(f)
@@ -220,7 +244,7 @@ def main():
         if need and tier == 'quick':
             log('escalating bounded jobs to the thorough bound for: %s' % ', '.join(sorted(need)))
             p2 = start_rtc(sorted(need), 'thorough', seed, tmp_out, budget=120)
-            p2.communicate()
+            finish_rtc(p2, 1800)
             try:
                 with open(tmp_out) as f:
                     extra = json.load(f)
